@@ -41,6 +41,7 @@ func GenC07(verifSeed uint64, run int) *Scenario {
 			e.SrcMode = Pick(g, []string{"rel", "abs", "dotdot"})
 			e.History = g.Intn(4)
 			e.Neighbour = g.Bool(0.3)
+			e.Relocate = g.Bool(0.3)
 		}
 		if i == nEnv-1 {
 			e.Child = true
@@ -82,6 +83,20 @@ type c07build struct {
 // buildUnder runs one in-process build under a simulated environment.
 func (rt *Runtime) buildUnder(w *World, cfg string, format string, e *Env07) c07build {
 	var out c07build
+	if e.Relocate {
+		// same tree, other place: a second root materialised in reverse order
+		alt := *rt
+		alt.Root = rt.Root + "-relocated"
+		if _, err := os.Stat(alt.Root); err != nil {
+			if err := MaterializeOrder(alt.Root, w.Tree, true); err != nil {
+				out.err = err
+				return out
+			}
+		}
+		e2 := *e
+		e2.Relocate = false
+		return alt.buildUnder(w, cfg, format, &e2)
+	}
 	oldLocal := time.Local
 	time.Local = time.FixedZone(fmt.Sprintf("verif%+d", e.TZOffsetMin), e.TZOffsetMin*60)
 	defer func() { time.Local = oldLocal }()
@@ -203,6 +218,8 @@ func RunC07(rt *Runtime, sc *Scenario) RunResult {
 		return res
 	}
 	rt.SetEnv(w.Env)
+	os.RemoveAll(rt.Root + "-relocated")
+	defer os.RemoveAll(rt.Root + "-relocated")
 	seen := map[string]bool{}
 	violate := func(v Violation) {
 		v.Property = "C07"
@@ -319,7 +336,7 @@ func RunC07(rt *Runtime, sc *Scenario) RunResult {
 					Detail: fmt.Sprintf("%s: build fails under environment %+v although it succeeds under the baseline: %v", f, *e, scrub(rt, b.err.Error()))})
 				continue
 			}
-			distinct[fmt.Sprintf("%s|%s|tz%s|gmp%d|%s|h%d|n%v|child%v|clk%s", f, compOf(w, f), tzName(e.TZOffsetMin), e.GoMaxProcs, e.SrcMode, e.History, e.Neighbour, e.Child, clockBucket(e.ClockOffsetS))] = true
+			distinct[fmt.Sprintf("%s|%s|tz%s|gmp%d|%s|h%d|n%v|child%v|reloc%v|clk%s", f, compOf(w, f), tzName(e.TZOffsetMin), e.GoMaxProcs, e.SrcMode, e.History, e.Neighbour, e.Child, e.Relocate, clockBucket(e.ClockOffsetS))] = true
 			if !bytes.Equal(b.bytes, base.bytes) {
 				// which dimension of the environment do the bytes depend on?
 				culprit := "child-process"
@@ -327,7 +344,10 @@ func RunC07(rt *Runtime, sc *Scenario) RunResult {
 					culprit = rt.c07Culprit(w, f, &plan.Envs[0], e, base.bytes, &res)
 				}
 				ee := *e
-				violate(Violation{Oracle: "A", Format: f, Group: "depends-on:" + culprit, Env: &ee,
+				// the culprit is a diagnosis, not part of the violation's
+				// identity: with a nondeterministic output it differs from
+				// run to run
+				violate(Violation{Oracle: "A", Format: f, Group: "bytes-differ-between-rebuilds", Class: "depends-on:" + culprit, Env: &ee,
 					Detail: fmt.Sprintf("%s: bytes differ between baseline environment %+v and %+v (%s); depends on: %s", f, plan.Envs[0], *e, firstDiff(b.bytes, base.bytes), culprit)})
 			}
 		}
@@ -395,6 +415,9 @@ func (rt *Runtime) c07Culprit(w *World, f string, base, e *Env07, baseBytes []by
 	h = *base
 	h.Neighbour = e.Neighbour
 	try("parallel-neighbour", h)
+	h = *base
+	h.Relocate = e.Relocate
+	try("source-location", h)
 	// plain repetition
 	b := rt.buildUnder(w, "", f, base)
 	res.Counters["builds"]++
@@ -403,6 +426,11 @@ func (rt *Runtime) c07Culprit(w *World, f string, base, e *Env07, baseBytes []by
 	}
 	if len(dims) == 0 {
 		return "combination"
+	}
+	for _, d := range dims {
+		if d == "repetition" {
+			return "nothing-but-repetition (nondeterministic output)"
+		}
 	}
 	return strings.Join(dims, "+")
 }
